@@ -26,6 +26,12 @@ Definition units (ps : list part) : list account :=
   flat_map (fun p => repeat (fst p) (Z.to_nat (snd p))) ps.
 Definition funits (f : funding) : list account := units (f_parts f).
 
+(* [total_parts []] and [units []] whatever (convertible) element type the [nil] carries *)
+Ltac nilz := repeat match goal with
+  | |- context [total_parts (@nil ?T)] => change (total_parts (@nil T)) with 0
+  | |- context [units (@nil ?T)] => change (units (@nil T)) with (@nil N)
+  end.
+
 Lemma sumZ_nil : sumZ [] = 0.
 Proof. reflexivity. Qed.
 Lemma sumZ_cons : forall x l, sumZ (x :: l) = x + sumZ l.
@@ -35,15 +41,13 @@ Proof. induction l1; intros; cbn [app]; rewrite ?sumZ_cons, ?sumZ_nil; [lia|]. r
 
 Lemma total_parts_nil : total_parts (@nil part) = 0.
 Proof. reflexivity. Qed.
-Lemma total_parts_nil' : total_parts (@nil (account * Z)) = 0.
-Proof. reflexivity. Qed.
 Lemma total_parts_cons : forall p ps, total_parts (p :: ps) = snd p + total_parts ps.
 Proof. reflexivity. Qed.
 Lemma total_parts_app : forall l1 l2, total_parts (l1 ++ l2) = total_parts l1 + total_parts l2.
 Proof. induction l1; intros; [reflexivity|]. cbn [app]. rewrite !total_parts_cons, IHl1. lia. Qed.
 Lemma total_parts_rev : forall l, total_parts (rev l) = total_parts l.
 Proof.
-  induction l; [reflexivity|]. cbn [rev]. rewrite total_parts_app, IHl, !total_parts_cons, ?total_parts_nil, ?total_parts_nil'. lia.
+  induction l; [reflexivity|]. cbn [rev]. rewrite total_parts_app, IHl, !total_parts_cons. nilz. lia.
 Qed.
 
 Lemma nonneg_parts_nil : nonneg_parts [].
@@ -64,8 +68,6 @@ Proof. intros f H; apply total_parts_nonneg; exact H. Qed.
 
 Lemma units_nil : units (@nil part) = [].
 Proof. reflexivity. Qed.
-Lemma units_nil' : units (@nil (account * Z)) = [].
-Proof. reflexivity. Qed.
 Lemma units_cons : forall p ps, units (p :: ps) = repeat (fst p) (Z.to_nat (snd p)) ++ units ps.
 Proof. reflexivity. Qed.
 Lemma units_app : forall l1 l2, units (l1 ++ l2) = units l1 ++ units l2.
@@ -77,7 +79,7 @@ Lemma rev_repeat_same : forall (A : Type) (a : A) n, rev (repeat a n) = repeat a
 Proof. induction n; [reflexivity|]. cbn [repeat rev]. rewrite IHn. apply repeat_snoc. Qed.
 Lemma units_rev : forall l, units (rev l) = rev (units l).
 Proof.
-  induction l; [reflexivity|]. cbn [rev]. rewrite units_app, IHl, !units_cons, ?units_nil, ?units_nil', app_nil_r, rev_app_distr.
+  induction l; [reflexivity|]. cbn [rev]. rewrite units_app, IHl, !units_cons. nilz. rewrite app_nil_r, rev_app_distr.
   rewrite rev_repeat_same. reflexivity.
 Qed.
 
@@ -116,10 +118,10 @@ Proof.
   - inversion H; reflexivity.
   - destruct (0 <? n) eqn:Hn.
     + destruct (n <? amt) eqn:Hlt.
-      * inversion H; subst. rewrite !total_parts_cons, ?total_parts_nil, ?total_parts_nil'. cbn [snd]. lia.
+      * inversion H; subst. rewrite !total_parts_cons. nilz. cbn [snd]. lia.
       * destruct (take_loop (n - amt) rest) as [[t' r'] m'] eqn:Hrec. inversion H; subst.
         specialize (IH _ _ _ _ Hrec). rewrite !total_parts_cons. cbn [snd]. lia.
-    + inversion H; subst. rewrite ?total_parts_nil, ?total_parts_nil'. lia.
+    + inversion H; subst. nilz. lia.
 Qed.
 
 Lemma take_loop_nonpos : forall ps n, n <= 0 -> take_loop n ps = ([], ps, n).
@@ -137,20 +139,20 @@ Lemma take_loop_spec : forall ps n t r m, take_loop n ps = (t, r, m) -> 0 <= n -
   units t ++ units r = units ps.
 Proof.
   induction ps as [|[a amt] rest IH]; intros n t r m H Hn Hnn; cbn [take_loop] in H.
-  - inversion H; subst. rewrite ?total_parts_nil, ?total_parts_nil', ?units_nil, ?units_nil'. splits; try constructor; lia.
+  - inversion H; subst. nilz. splits; try constructor; lia.
   - apply nonneg_parts_cons in Hnn. destruct Hnn as [Ha Hrest]. cbn [snd] in Ha.
     pose proof (total_parts_nonneg _ Hrest) as Htr.
     destruct (0 <? n) eqn:Hpos.
     + apply Z.ltb_lt in Hpos. destruct (n <? amt) eqn:Hlt.
       * apply Z.ltb_lt in Hlt. inversion H; subst.
-        rewrite !total_parts_cons, ?total_parts_nil, ?total_parts_nil'. cbn [snd].
+        rewrite !total_parts_cons. nilz. cbn [snd].
         splits.
         -- apply nonneg_parts_cons; cbn [snd]; split; [lia|constructor].
         -- apply nonneg_parts_cons; cbn [snd]; split; [lia|assumption].
         -- lia.
         -- lia.
         -- lia.
-        -- rewrite !units_cons, ?units_nil, ?units_nil', app_nil_r. cbn [fst snd]. rewrite app_assoc.
+        -- rewrite !units_cons. nilz. rewrite app_nil_r. cbn [fst snd]. rewrite app_assoc.
            rewrite <- repeat_add_Z by lia. f_equal. f_equal. f_equal. lia.
       * apply Z.ltb_ge in Hlt.
         destruct (take_loop (n - amt) rest) as [[t' r'] m'] eqn:Hrec. inversion H; subst.
@@ -163,7 +165,7 @@ Proof.
         -- lia.
         -- rewrite !units_cons. cbn [fst snd]. rewrite <- app_assoc, I6. reflexivity.
     + apply Z.ltb_ge in Hpos. assert (n = 0) by lia. subst n. inversion H; subst.
-      rewrite !total_parts_cons, ?total_parts_nil, ?total_parts_nil', ?units_nil, ?units_nil'. cbn [snd app].
+      rewrite !total_parts_cons. nilz. cbn [snd app].
       splits; try constructor; try assumption; try lia.
 Qed.
 
@@ -209,7 +211,7 @@ Proof.
   intros f n Hnn. unfold take.
   destruct (take_loop n (f_parts f)) as [[t r] m] eqn:Hl.
   destruct (Z_lt_le_dec n 0) as [Hneg|Hn].
-  - rewrite take_loop_nonpos in Hl by lia. inversion Hl; subst.
+  - rewrite take_loop_nonpos in Hl by lia. inversion Hl as [[E1 E2 E3]]. clear E1 E2. subst m.
     destruct (n =? 0) eqn:E; [apply Z.eqb_eq in E; lia|]. split; auto.
   - destruct (take_loop_spec _ _ _ _ _ Hl Hn Hnn) as (I1 & I2 & I3 & I4 & I5 & I6).
     unfold total. destruct (m =? 0) eqn:E.
@@ -272,10 +274,10 @@ Qed.
 
 Lemma concat_parts_total : forall l1 l2, total_parts (concat_parts l1 l2) = total_parts l1 + total_parts l2.
 Proof.
-  induction l1 as [|[a x] r1 IH]; intros l2; [cbn; lia|].
+  induction l1 as [|[a x] r1 IH]; intros l2; [cbn [concat_parts]; nilz; lia|].
   destruct r1 as [|q r1'].
-  - cbn [concat_parts]. destruct l2 as [|[b y] r2]; [cbn; lia|].
-    destruct (N.eqb a b); rewrite !total_parts_cons; cbn [snd]; rewrite ?total_parts_cons, ??total_parts_nil, ?total_parts_nil';
+  - cbn [concat_parts]. destruct l2 as [|[b y] r2]; [rewrite ?total_parts_cons; nilz; lia|].
+    destruct (N.eqb a b); rewrite !total_parts_cons; cbn [snd]; rewrite ?total_parts_cons; nilz;
       cbn [snd]; lia.
   - change (concat_parts ((a, x) :: q :: r1') l2) with ((a, x) :: concat_parts (q :: r1') l2).
     rewrite !total_parts_cons, IH, !total_parts_cons. lia.
@@ -301,8 +303,8 @@ Proof.
   destruct r1 as [|q r1'].
   - cbn [concat_parts]. destruct l2 as [|[b y] r2]; [rewrite app_nil_r; reflexivity|].
     apply nonneg_parts_cons in H2. destruct H2 as [Hy Hr2]. cbn [snd] in Hy.
-    destruct (N.eqb a b) eqn:E; [|reflexivity].
-    apply N.eqb_eq in E. subst b. rewrite !units_cons, ?units_nil, ?units_nil', app_nil_r. cbn [fst snd].
+    destruct (N.eqb a b) eqn:E; [|rewrite !units_cons; nilz; rewrite app_nil_r; reflexivity].
+    apply N.eqb_eq in E. subst b. rewrite !units_cons. nilz. rewrite app_nil_r. cbn [fst snd].
     rewrite repeat_add_Z by assumption. rewrite app_assoc. reflexivity.
   - change (concat_parts ((a, x) :: q :: r1') l2) with ((a, x) :: concat_parts (q :: r1') l2).
     rewrite !units_cons, IH by assumption. rewrite units_cons, !app_assoc. reflexivity.
@@ -362,7 +364,7 @@ Proof.
   split.
   { rewrite forallb_forall in Hall. apply Forall_forall. intros f Hin. apply N.eqb_eq. apply Hall; exact Hin. }
   split.
-  { rewrite concat_all_total, ?total_parts_nil, ?total_parts_nil'. reflexivity. }
+  { rewrite concat_all_total. nilz. reflexivity. }
   intro Hnn. split.
   - apply concat_all_nonneg; [constructor|assumption].
   - rewrite concat_all_units by (try constructor; assumption). reflexivity.
@@ -447,7 +449,7 @@ Lemma floor_share_nonneg : forall amount q, 0 <= amount -> 0 <= fst q -> 0 <= fl
 Proof. intros amount [n d] Ha Hn. unfold floor_share; cbn [fst snd] in *. apply Z.div_pos; nia. Qed.
 
 (* the heart of Allocate: the floors fall short of the exact share total by less than one unit per entry *)
-Lemma floors_bound : forall amount a,
+Lemma floors_bound : forall amount (a : list ratio),
   let N := fst (ratio_sum a) in let D := Zpos (snd (ratio_sum a)) in
   let S := sumZ (map (floor_share amount) a) in
   0 <= amount * N - D * S <= (D - 1) * Z.of_nat (length a).
@@ -508,18 +510,60 @@ Proof.
   destruct (0 <? short); constructor; try apply IH; try assumption; lia.
 Qed.
 
-Lemma allocate_length : forall a amount, length (allocate a amount) = length a.
+Lemma allocate_length : forall (a : list ratio) amount, length (allocate a amount) = length a.
 Proof. intros. unfold allocate. rewrite distribute_length, map_length. reflexivity. Qed.
 
 (* the sum of the shares for any list of ratios: the floors plus at most one unit per entry *)
-Lemma allocate_sum_general : forall a amount,
+Lemma allocate_sum_general : forall (a : list ratio) amount,
   let S := sumZ (map (floor_share amount) a) in
   sumZ (allocate a amount) = S + Z.max 0 (Z.min (amount - S) (Z.of_nat (length a))).
 Proof. intros. unfold allocate. rewrite distribute_sum, map_length. reflexivity. Qed.
 
+(* (d), the part that needs no sign condition: with ratios summing to 1 the floors fall short by fewer units
+   than there are entries, so the single +1 pass of the Go loop hands out the whole amount *)
+Theorem allocate_exact : forall (a : list ratio) amount,
+  ratio_is_one (ratio_sum a) ->
+  let floors := map (floor_share amount) a in
+  let leftover := amount - sumZ floors in
+  sumZ (allocate a amount) = amount /\
+  length (allocate a amount) = length a /\
+  0 <= leftover < Z.of_nat (length a) /\
+  (forall i, (i < length a)%nat ->
+     nth i (allocate a amount) 0 = floor_share amount (nth i a ratio_zero) + (if Z.of_nat i <? leftover then 1 else 0)).
+Proof.
+  intros a amount Hone floors leftover.
+  pose proof (floors_bound amount a) as B. cbn zeta in B. unfold ratio_is_one in Hone. rewrite Hone in B.
+  fold floors in B. set (D := Zpos (snd (ratio_sum a))) in *. assert (HD : 0 < D) by (subst D; lia).
+  set (len := Z.of_nat (length a)) in *.
+  assert (Hlen : 0 < len).
+  { subst len. destruct a; [|cbn [length]; lia]. cbn in Hone. discriminate. }
+  assert (L : 0 <= leftover < len).
+  { subst leftover len. set (x := amount - sumZ floors).
+    replace (amount * D - D * sumZ floors) with (D * x) in B by (subst x; ring).
+    set (l := Z.of_nat (length a)) in *. change (0 <= D * x <= (D - 1) * l) in B. clearbody x l D. split; nia. }
+  split; [|split; [|split]].
+  - rewrite allocate_sum_general. fold floors. fold leftover. fold len. lia.
+  - apply allocate_length.
+  - exact L.
+  - intros i Hi. unfold allocate. fold floors. fold leftover.
+    rewrite distribute_nth by (subst floors; rewrite map_length; exact Hi).
+    f_equal. subst floors.
+    assert (Z0 : floor_share amount ratio_zero = 0)
+      by (unfold floor_share, ratio_zero; cbn [fst snd]; rewrite Z.mul_0_r; reflexivity).
+    rewrite <- (map_nth (floor_share amount) a ratio_zero i), Z0. reflexivity.
+Qed.
+
+Lemma allocate_nonneg : forall (a : list ratio) amount,
+  Forall (fun q : ratio => 0 <= fst q) a -> 0 <= amount -> Forall (fun x => 0 <= x) (allocate a amount).
+Proof.
+  intros a amount Hnn Hamt. unfold allocate. apply distribute_nonneg. apply Forall_forall. intros x Hin.
+  apply in_map_iff in Hin. destruct Hin as (q & <- & Hq). apply floor_share_nonneg; [assumption|].
+  rewrite Forall_forall in Hnn. apply Hnn; assumption.
+Qed.
+
 (* (d) allocate_spec *)
-Theorem allocate_spec : forall a amount,
-  Forall (fun q => 0 <= fst q) a -> ratio_is_one (ratio_sum a) -> 0 <= amount ->
+Theorem allocate_spec : forall (a : list ratio) amount,
+  Forall (fun q : ratio => 0 <= fst q) a -> ratio_is_one (ratio_sum a) -> 0 <= amount ->
   let floors := map (floor_share amount) a in
   let leftover := amount - sumZ floors in
   sumZ (allocate a amount) = amount /\
@@ -530,23 +574,8 @@ Theorem allocate_spec : forall a amount,
   Forall (fun x => 0 <= x) (allocate a amount).
 Proof.
   intros a amount Hnn Hone Hamt floors leftover.
-  pose proof (floors_bound amount a) as B. cbn zeta in B. unfold ratio_is_one in Hone. rewrite Hone in B.
-  fold floors in B. set (D := Zpos (snd (ratio_sum a))) in *. assert (HD : 0 < D) by (subst D; lia).
-  set (len := Z.of_nat (length a)) in *.
-  assert (Hlen : 0 < len).
-  { subst len. destruct a; [|cbn [length]; lia]. cbn in Hone. discriminate. }
-  assert (L : 0 <= leftover < len).
-  { subst leftover. replace (amount * D - D * sumZ floors) with (D * (amount - sumZ floors)) in B by ring.
-    split; nia. }
-  split; [|split; [|split; [|split]]].
-  - rewrite allocate_sum_general. fold floors. fold leftover. fold len. lia.
-  - apply allocate_length.
-  - exact L.
-  - intros i Hi. unfold allocate. fold floors. fold leftover. rewrite distribute_nth by (subst floors; rewrite map_length; exact Hi).
-    f_equal. subst floors. change 0 with (floor_share amount ratio_zero) at 1. apply map_nth.
-  - unfold allocate. apply distribute_nonneg. apply Forall_forall. intros x Hin. apply in_map_iff in Hin.
-    destruct Hin as (q & <- & Hq). apply floor_share_nonneg; [assumption|].
-    rewrite Forall_forall in Hnn. apply Hnn; assumption.
+  destruct (allocate_exact a amount Hone) as (A1 & A2 & A3 & A4).
+  split; [exact A1|split; [exact A2|split; [exact A3|split; [exact A4|apply allocate_nonneg; assumption]]]].
 Qed.
 
 (* ------------------------------------------------------------------------------------------------ *)
@@ -570,24 +599,46 @@ Qed.
 
 (* an allotment is exact when it has a `remaining` entry or its specific portions already sum to 1; this is
    what the compiler (VisitAllotment / Compiler.visit_allotment) enforces statically *)
-Theorem new_allotment_spec : forall ps a, new_allotment ps = inr a ->
-  Forall portion_nonneg ps ->
-  length a = length ps /\
-  Forall (fun q => 0 <= fst q) a /\
-  ((count_remaining ps = 1%nat \/ req (sum_specific ps) ratio_one) -> ratio_is_one (ratio_sum a)).
+Lemma new_allotment_length : forall ps a, new_allotment ps = inr a -> length a = length ps.
+Proof.
+  intros ps a H. unfold new_allotment in H.
+  destruct (Nat.ltb 1 (count_remaining ps)); [discriminate|].
+  destruct (ratio_gt1 (sum_specific ps)); [discriminate|]. inversion H; subst. apply map_length.
+Qed.
+
+Lemma new_allotment_exact : forall ps a, new_allotment ps = inr a ->
+  (count_remaining ps = 1%nat \/ req (sum_specific ps) ratio_one) -> ratio_is_one (ratio_sum a).
+Proof.
+  intros ps a H Hex. unfold new_allotment in H.
+  destruct (Nat.ltb 1 (count_remaining ps)) eqn:Hc; [discriminate|]. apply Nat.ltb_ge in Hc.
+  destruct (ratio_gt1 (sum_specific ps)) eqn:Hg; [discriminate|].
+  inversion H; subst a; clear H.
+  apply ratio_is_one_req, req_Qeq. rewrite new_allotment_sum, Qof_sub, Qof_one.
+  destruct Hex as [H1|H1].
+  - rewrite H1. cbn. ring.
+  - assert (H2 : Qeq (Qof (sum_specific ps)) 1%Q) by exact H1. clear H1. rename H2 into H1.
+    assert (count_remaining ps = 0%nat \/ count_remaining ps = 1%nat) as [E|E] by lia; rewrite E; cbn; rewrite H1; ring.
+Qed.
+
+Lemma new_allotment_nonneg : forall ps a, new_allotment ps = inr a ->
+  Forall portion_nonneg ps -> Forall (fun q : ratio => 0 <= fst q) a.
 Proof.
   intros ps a H Hnn. unfold new_allotment in H.
-  destruct (Nat.ltb 1 (count_remaining ps)) eqn:Hc; [discriminate|]. apply Nat.ltb_ge in Hc.
+  destruct (Nat.ltb 1 (count_remaining ps)) eqn:Hc; [discriminate|].
   destruct (ratio_gt1 (sum_specific ps)) eqn:Hg; [discriminate|].
   unfold ratio_gt1 in Hg. apply Z.ltb_ge in Hg.
   inversion H; subst a; clear H.
-  split; [apply map_length|]. split.
-  - apply Forall_forall. intros q Hin. apply in_map_iff in Hin. destruct Hin as (p & <- & Hp).
-    rewrite Forall_forall in Hnn. specialize (Hnn p Hp). destruct p; [|exact Hnn].
-    unfold ratio_sub, ratio_one; cbn [fst snd]. lia.
-  - intro Hex. apply ratio_is_one_req, req_Qeq. rewrite new_allotment_sum, Qof_sub, Qof_one.
-    destruct Hex as [H1|H1].
-    + rewrite H1. cbn. ring.
-    + apply req_Qeq in H1. rewrite Qof_one in H1.
-      assert (count_remaining ps = 0%nat \/ count_remaining ps = 1%nat) as [E|E] by lia; rewrite E; cbn; rewrite H1; ring.
+  apply Forall_forall. intros q Hin. apply in_map_iff in Hin. destruct Hin as (p & <- & Hp).
+  rewrite Forall_forall in Hnn. specialize (Hnn p Hp). destruct p; [|exact Hnn].
+  unfold ratio_sub, ratio_one; cbn [fst snd]. lia.
+Qed.
+
+Theorem new_allotment_spec : forall ps a, new_allotment ps = inr a ->
+  Forall portion_nonneg ps ->
+  length a = length ps /\
+  Forall (fun q : ratio => 0 <= fst q) a /\
+  ((count_remaining ps = 1%nat \/ req (sum_specific ps) ratio_one) -> ratio_is_one (ratio_sum a)).
+Proof.
+  intros ps a H Hnn. split; [eapply new_allotment_length; eassumption|].
+  split; [eapply new_allotment_nonneg; eassumption|]. intro Hex. eapply new_allotment_exact; eassumption.
 Qed.
